@@ -313,7 +313,7 @@ def f9(ctx, rid):
                     continue
                 bad += 1
                 ctx.bad(rid, 'no-o-append|%s' % prog.fns[f.id].root, c.where(), 'a file of the io layer is opened with append(true): positional writes at reserved offsets are silently turned into appends at the real end of file; after one failed / short append to a re-opened blob every later acknowledged record is written at another position than its index entry points to and cannot be read back')
-    if n < 4:
+    if n < 2:
         raise core.AnchorLost('OpenOptions configuration calls in src/io: %d' % n)
     if not bad:
         ctx.ok(rid, 'no-o-append|scan', '', '%d OpenOptions configuration calls in src/io, none sets O_APPEND' % n, queries=n)
